@@ -5,6 +5,8 @@ CONSTANTS
   MaxFails = 2
   MonotoneCursor = FALSE
   RetryOnError = TRUE
+  RestartAtTop = FALSE
+  MaxRestarts = 2
 INVARIANTS CursorAboveBase NothingSkipped
 PROPERTIES AllHandedEventually
 CHECK_DEADLOCK FALSE
